@@ -34,7 +34,7 @@ func init() {
 func checkC16(c *Ctx) {
 	p := c.P
 	checkHandStateSync(c, "R5")
-	checkReadyGroupNoRecursiveRLock(c, "R7")
+	checkReadyGroupNoRecursiveRLock(c, "R7", "tableEngine", "the engine's membership ready group")
 	checkLockHoldersNeverCopied(c, "R1")
 	et := p.singleImpl("", "TableEngine")
 	smT := p.singleImpl("/seat_manager", "SeatManager")
